@@ -100,14 +100,15 @@ Plan = List[Tuple[Ratio, Path, Exponent]]
 @functools.lru_cache(maxsize=None)
 def _plan_conversion(start: Unit, end: Unit) -> Plan:
     unprefixed = end.quantify()
-    plan: RoughPlan = [(1 / unprefixed.magnitude, One, One, 1)]
+    plan: RoughPlan = []
+    unprefix: RoughPlan = [(1 / unprefixed.magnitude, One, One, 1)]
 
     start_factors = _splat(start)
     end_factors = _splat(end)
 
     direct_path = _find_path(start, end)
     if direct_path:
-        return _inline_paths(plan) + [(1, direct_path, 1)]
+        return [(1, direct_path, 1)] + _inline_paths(unprefix)
 
     plan += [
         (ratio, end, start, exponent)
@@ -130,7 +131,7 @@ def _plan_conversion(start: Unit, end: Unit) -> Plan:
     assert not start_factors
     assert not end_factors
 
-    return _inline_paths(plan)
+    return _inline_paths(plan + unprefix)
 
 
 def _inline_paths(plan: List[Tuple[Ratio, Unit, Unit, Exponent]]) -> Plan:
